@@ -675,20 +675,43 @@ func checkPnftViewsDoNotRewriteEntities(p *Prog, r *Report, kp func(string, stri
 			continue
 		}
 		nFn++
-		saves := false
-		for _, g := range p.ReachFrom([]*ssa.Function{fn}, func(f *ssa.Function) bool { return InModule(f) && !p.IsGenerated(f) }).Order {
-			for _, cs := range callSites(g) {
-				if cs.Callee != nil {
-					if m, ok := isNftKeeperMethod(resolveBound(cs.Callee)); ok {
-						if _, mut := nftMutators[m]; mut {
-							saves = true
+		savesFn := func(root *ssa.Function) bool {
+			for _, g := range p.ReachFrom([]*ssa.Function{root}, func(f *ssa.Function) bool { return InModule(f) && !p.IsGenerated(f) }).Order {
+				for _, cs := range callSites(g) {
+					if cs.Callee != nil {
+						if m, ok := isNftKeeperMethod(resolveBound(cs.Callee)); ok {
+							if _, mut := nftMutators[m]; mut {
+								return true
+							}
 						}
 					}
-				}
-				if strings.HasSuffix(cs.Name, "KVStore.Set") || strings.HasSuffix(cs.Name, "prefix.Store).Set") {
-					saves = true
+					if strings.HasSuffix(cs.Name, "KVStore.Set") || strings.HasSuffix(cs.Name, "prefix.Store).Set") {
+						return true
+					}
 				}
 			}
+			return false
+		}
+		saves := savesFn(fn)
+		if !saves {
+			// a helper that applies the changes for a caller that saves: every caller (two levels up) saves
+			var allSave func(f *ssa.Function, depth int) bool
+			allSave = func(f *ssa.Function, depth int) bool {
+				callers, _ := p.CallersOf(f)
+				if len(callers) == 0 || depth > 2 {
+					return false
+				}
+				for _, c := range callers {
+					if !InModule(c) || InPkgs(c, "types/testsuite") {
+						continue
+					}
+					if !savesFn(c) && !allSave(c, depth+1) {
+						return false
+					}
+				}
+				return true
+			}
+			saves = allSave(fn, 0)
 		}
 		if !saves {
 			nBad++
